@@ -68,7 +68,7 @@ def replay(chk, units, keyfn, sample=None, seed=0, label='b1', pack=40, cc=True,
 
 
 def failure_kind(why):
-    for k, pat in (('raw', 'raw (non-VTL)'), ('comps', 'components differ'), ('value', 'value of '), ('rows', 'row count'),
+    for k, pat in (('decimal-scale', 'out of range of the DECIMAL type'), ('raw', 'raw (non-VTL)'), ('comps', 'components differ'), ('value', 'value of '), ('rows', 'row count'),
                    ('missing', 'missing datapoint'), ('noerror', 'VTL defines a runtime error'), ('error', 'engine raised'),
                    ('columns', 'columns differ'), ('scalar', 'scalar ')):
         if pat in why:
